@@ -768,7 +768,7 @@ Proof.
     + intros h o Hi. apply (R h o Hi).
     + intros h o Hi. apply (R h o Hi).
     + intros o Hi. apply Hf in Hi. apply Nat.ltb_lt; auto.
-    + intros v o Hi. apply (R _ o Hi v eq_refl).
+    + intros v o Hi. destruct (R _ o Hi) as [_ [_ K]]. apply (K v eq_refl).
     + apply has_leak_false; auto.
   - intros v. rewrite stat_init. destruct (mem v params) eqn:M; cbn.
     + apply mem_In in M. apply Hp in M. apply Nat.eqb_eq; auto.
